@@ -29,6 +29,17 @@ type (
 	NInts   []int
 	NMap    map[string]int
 	NStruct struct{ A int }
+
+	// types that contain themselves: through containers only (no converter can be built by building the
+	// element's first), and through a struct (which the bridge registers before it looks at the fields)
+	RecSlice []RecSlice
+	RecMap   map[string]RecMap
+	RecArr   []*[1]RecArr
+	RecNode  struct {
+		N    int
+		Next *RecNode
+		Kids []RecNode
+	}
 )
 
 // MyErr is an error with contents, so that "the same error came back" is observable.
@@ -131,6 +142,10 @@ func leaves() []*leaf {
 		mk("named-composite", "NInts", []string{"nil", "ord"}, NInts(nil), NInts{1, -2}),
 		mk("named-composite", "NMap", []string{"nil", "ord"}, NMap(nil), NMap{"k": 1}),
 		mk("named-composite", "NStruct", []string{"zero", "ord"}, NStruct{}, NStruct{A: 4}),
+		mk("recursive", "RecSlice", []string{"nil", "ord"}, RecSlice(nil), RecSlice{nil, RecSlice{}}),
+		mk("recursive", "RecMap", []string{"nil", "ord"}, RecMap(nil), RecMap{"k": RecMap{}}),
+		mk("recursive", "RecArr", []string{"nil", "ord"}, RecArr(nil), RecArr{nil}),
+		mk("recursive", "RecNode", []string{"zero", "ord"}, RecNode{}, RecNode{N: 1, Next: &RecNode{N: 2}, Kids: []RecNode{{N: 3}}}),
 		// a string-keyed map whose key type is a named string (kind String, so the bridge accepts the type)
 		mk("named-key-map", "map[NString]int", []string{"nil", "ord"}, map[NString]int(nil), map[NString]int{"k": 1}),
 	}
